@@ -3,7 +3,7 @@
 use super::common::*;
 use super::{Property, Tier, Verdict};
 use crate::entropy::Rng;
-use crate::exec::{Op, ProbeMsg, RunLog, Scenario, When};
+use crate::exec::{Op, ProbeMsg, RunLog, Scenario, TokenSpec, When};
 use crate::krpc::{self, id20, parse_values, Kind};
 use serde_json::json;
 use std::collections::{BTreeMap, BTreeSet};
@@ -149,6 +149,24 @@ impl Property for C07 {
                     t += 2_000;
                 }
             }
+            // announces that must be refused (garbage / wrong-length / foreign token): for new pairs and
+            // for pairs that are already stored (a refused re-announce must not restart their 24 h)
+            if rng.chance(1, 3) {
+                for _ in 0..rng.range(1, 4) {
+                    let (src, port, ih) = if !known.is_empty() && rng.chance(1, 2) {
+                        *rng.pick(&known)
+                    } else {
+                        (new_src(&mut rng), Some(rng.range(1, 65535) as u16), *rng.pick(&ihs))
+                    };
+                    let token = match rng.below(3) {
+                        0 => TokenSpec::Bytes(rng.bytes(20)),
+                        1 => TokenSpec::Bytes(rng.bytes_in(0, 19)),
+                        _ => TokenSpec::Bytes(vec![]),
+                    };
+                    step(&mut sc, When::At(t), Op::Probe { from: src, to: node, msg: ProbeMsg::Announce { tid: tids.next(), id: pid, ih, port, token }, timeout_ms: 5_000 });
+                    t += rng.range(0, 500);
+                }
+            }
             // reads after every phase
             t += sc.net.lat_max_ms * 4 + 200;
             for ih in ihs.iter().take(if phase % 3 == 0 { ihs.len() } else { 3 }) {
@@ -214,6 +232,10 @@ impl Property for C07 {
                             } else if !is_live && live.len() < CAP {
                                 v.violate("C07", "refused_with_room", now, format!("new pair {contact} refused with 202 although only {} pairs are live", live.len()));
                             }
+                        }
+                        Kind::Error { code: 203, .. } => {
+                            // refused for its token: nothing may change (checked by the following reads)
+                            v.hit("refused_203");
                         }
                         Kind::Error { code, .. } => {
                             v.hit("unexpected_error_reply");
@@ -282,12 +304,12 @@ impl Property for C07 {
         v
     }
     fn rule(&self) -> &'static str {
-        "one real serving node; probes from up to 500+ source addresses (one or both families) announce new and repeated pairs (explicit/implied port, 1..60 info-hashes), each with a fresh valid token, and read back with get_peers, over 0..4 virtual days with gaps biased to 24 h +- {1 ms, 200 ms, 2 s} after an announce and bursts to 499/500/501 pairs; every reply is compared with a reference model map[(info-hash, contact)] = last acknowledged announce time. non-trivial = at least one acknowledged announce and one non-empty read; distinct = distinct order digests"
+        "one real serving node; probes from up to 500+ source addresses (one or both families) announce new and repeated pairs (explicit/implied port, 1..60 info-hashes), each with a fresh valid token (plus, in one phase of three, announces with garbage / short / empty tokens for new and for already stored pairs, which must be refused and change nothing), and read back with get_peers, over 0..4 virtual days with gaps biased to 24 h +- {1 ms, 200 ms, 2 s} after an announce and bursts to 499/500/501 pairs; every reply is compared with a reference model map[(info-hash, contact)] = last acknowledged announce time. non-trivial = at least one acknowledged announce and one non-empty read; distinct = distinct order digests"
     }
     fn assumptions(&self) -> Vec<&'static str> {
         vec!["no message faults and no socket stalls in this family (the model needs exact handling instants = reply send times)", "at exactly 24 h +- 1 ms either answer is accepted"]
     }
     fn required_reach(&self) -> Vec<&'static str> {
-        vec!["renewal", "refused_202", "some_pair_expired", "store_reached_500", "both_families", "read_over_100_peers"]
+        vec!["renewal", "refused_202", "refused_203", "some_pair_expired", "store_reached_500", "both_families", "read_over_100_peers"]
     }
 }
